@@ -15,27 +15,39 @@
 (* "Forced").  States generated = distinct states on every accepted trace.                                             *)
 (* What the code reports is accepted and judged by the invariants: the id a call drew (IdNonZero, IdsDistinct), the   *)
 (* packet a caller took (ReplyMatches), the counters read at quiescence (NoResidue), the event times (TDeadline).     *)
+(* What the caller of TarsInvoke holds at CallEnd is what counts: a caller that reports success although doInvoke      *)
+(* ended with a timeout or an error (client filters sit between the two) is accepted as observed (TCallEndClaim) and   *)
+(* judged by ReplyMatches.  Every peer packet carries the time it was written and whether its addressee was waiting;   *)
+(* obs collects the calls that ended with a timeout although their reply had been written Margin before the deadline   *)
+(* on a connection that stayed open, behind a stray packet (TimelyReply: ReplyInTime of ClientMux with recorded times; *)
+(* runs with ReadTimeout 0 -- where the code as it is offers nothing -- are exempt and printed as an observation).      *)
 EXTENDS ClientMux, Json
-VARIABLES l, scn, qlo, qhi, want, win
+VARIABLES l, scn, qlo, qhi, want, win,
+          obs        \* what the run has shown so far: shut (a connection was closed / a write failed), stray (the first peer packet that
+                     \* was addressed to nobody waiting or repeated an earlier one; 0: none), early (calls that ended with a
+                     \* timeout although the peer had written their reply Margin before the deadline), held (those of them that
+                     \* had a stray packet ahead of the reply)
 Trace == ndJsonDeserialize("trace.ndjson")
-tvars == <<vars, l, scn, qlo, qhi, want, win>>
+tvars == <<vars, l, scn, qlo, qhi, want, win, obs>>
 Slack == 500
-NoScn == [k |-> 0, dial |-> 0, qmax |-> 0, sc |-> -1]
-TraceInit == Init /\ l = 1 /\ scn = NoScn /\ qlo = [c \in Callers |-> 0] /\ qhi = [c \in Callers |-> 0] /\ want = EmptyF /\ win = {}
+Margin == 250
+NoScn == [k |-> 0, dial |-> 0, qmax |-> 0, sc |-> -1, rt |-> 0]
+NoObs == [shut |-> FALSE, stray |-> 0, early |-> {}, held |-> {}]
+TraceInit == Init /\ l = 1 /\ scn = NoScn /\ qlo = [c \in Callers |-> 0] /\ qhi = [c \in Callers |-> 0] /\ want = EmptyF /\ win = {} /\ obs = NoObs
 Here == l <= Len(Trace)
 E == Trace[l]
 Timeless == {"Config", "End"}
 Synced == Here /\ (IF E.e \in Timeless THEN TRUE ELSE now = E.t)
 IsEv(e) == Here /\ E.e = e /\ now = E.t /\ l' = l + 1 /\ UNCHANGED scn
-Keep == UNCHANGED <<want, win>>
+Keep == UNCHANGED <<want, win, obs>>
 Same == UNCHANGED vars
 
 \* the clock follows the recorded times (no maximal progress here: that is what the slack is for)
 TAdvance == /\ Here /\ E.e \notin Timeless /\ now < E.t /\ now' = E.t
-            /\ UNCHANGED <<msgID, pc, cid, out, st, eff, resp, queueLen, mgrInvoke, tInvoke, conn, dialer, dmode, dialT, sendQ, wire, seen, pkt, rst, rch, lookT, l, scn, want, win>>
+            /\ UNCHANGED <<msgID, pc, cid, out, st, eff, resp, queueLen, mgrInvoke, tInvoke, conn, dialer, dmode, dialT, sendQ, wire, seen, pkt, rst, rch, lookT, l, scn, want, win, obs>>
 
 TConfig == /\ Here /\ E.e = "Config" /\ l' = l + 1 /\ E.k <= Cardinality(Callers)
-           /\ scn' = [k |-> E.k, dial |-> E.dial, qmax |-> E.qmax, sc |-> E.sc]
+           /\ scn' = [k |-> E.k, dial |-> E.dial, qmax |-> E.qmax, sc |-> E.sc, rt |-> E.rt] /\ obs' = NoObs
            /\ msgID' = E.start
            /\ pc' = [c \in Callers |-> "idle"] /\ cid' = [c \in Callers |-> 0] /\ out' = [c \in Callers |-> NoOut]
            /\ st' = [c \in Callers |-> 0] /\ eff' = [c \in Callers |-> IF c <= E.k THEN E.to[c] ELSE 0]
@@ -57,12 +69,18 @@ Misdeliver(c, p) == /\ Finish(c, "reply", p) /\ Goto(c, "unreg1")
 TTake(c, p) == /\ pc[c] = "wait"
                /\ IF p \in DOMAIN rst /\ rst[p] = "found" /\ rch[p] = c THEN Deliver(p) ELSE Misdeliver(c, p)
 
+\* ---- non-interference in time (ReplyInTime of ClientMux with recorded times): a call that ends with a timeout although the peer
+\* had written a reply carrying its id (having seen its request) at least Margin before the deadline
+Early(c) == {q \in DOMAIN pkt : pkt[q].id = cid[c] /\ pkt[q].tag = c /\ pkt[q].t + Margin <= st[c] + eff[c] /\ pkt[q].t + Margin <= now}
+\* ... on a connection that stayed open, with a read timeout (with ReadTimeout 0 the code as it is offers nothing: an observation),
+\* and behind a stray packet: the stray packet is what the statement says must not affect another call
+Held(c) == ~obs.shut /\ scn.rt > 0 /\ obs.stray # 0 /\ \E q \in Early(c) : obs.stray < q
 \* ---- events
 \* win: calls between RegBegin and Registered, or between UnregBegin and Unregistered (their Store / Delete may have happened)
 Open(c) == win' = win \cup {c} /\ UNCHANGED want
-Shut(c) == win' = win \ {c} /\ UNCHANGED want
+Shut(c) == win' = win \ {c} /\ UNCHANGED <<want, obs>>
 TCallStart == IsEv("CallStart") /\ E.c <= scn.k /\ Start(E.c)
-TRegBegin == IsEv("RegBegin") /\ pc[E.c] = "reg1" /\ cid[E.c] = E.id /\ Same /\ Open(E.c)
+TRegBegin == IsEv("RegBegin") /\ pc[E.c] = "reg1" /\ cid[E.c] = E.id /\ Same /\ Open(E.c) /\ UNCHANGED obs
 TRegistered == IsEv("Registered") /\ pc[E.c] = "send" /\ cid[E.c] = E.id /\ Same /\ Shut(E.c)
 TDequeued == /\ IsEv("Dequeued")
              /\ LET m == <<E.id, E.c>> IN
@@ -70,10 +88,14 @@ TDequeued == /\ IsEv("Dequeued")
                 ELSE /\ E.retry > 0 /\ tInvoke' = tInvoke + 1 /\ wire' = wire \cup {m}      \* written again after a write error
                      /\ UNCHANGED <<msgID, pc, cid, out, st, eff, resp, queueLen, mgrInvoke, conn, dialer, dmode, dialT, sendQ, seen, pkt, rst, rch, lookT, now>>
 TPeerRecv == IsEv("PeerRecv") /\ <<E.id, E.c>> \in wire /\ PeerGet(<<E.id, E.c>>)
-TPeerSend == IsEv("PeerSend") /\ E.q = Len(pkt) + 1 /\ PeerSend(E.id) /\ pkt'[E.q].tag = E.tag
+\* a packet addressed to nobody waiting (late, foreign, push, garbage) or repeating an earlier packet is a stray packet
+TPeerSend == /\ IsEv("PeerSend") /\ E.q = Len(pkt) + 1 /\ PeerSend(E.id) /\ pkt'[E.q].tag = E.tag
+             /\ obs' = (IF obs.stray = 0 /\ (~(\E c \in Callers : pc[c] = "wait" /\ cid[c] = E.id) \/ \E s \in DOMAIN pkt : pkt[s].id = E.id)
+                        THEN [obs EXCEPT !.stray = E.q] ELSE obs)
+             /\ UNCHANGED <<want, win>>
 TNetRecv == IsEv("NetRecv") /\ RecvPkgBody(E.q)
 TRecvBad == IsEv("RecvBad") /\ E.q \in DOMAIN pkt /\ pkt[E.q].id = GARB /\ RecvStart(E.q)
-TRecvBegin == IsEv("RecvBegin") /\ E.q \in DOMAIN pkt /\ pkt[E.q].id = E.id /\ E.id # GARB /\ RecvStart(E.q) /\ want' = Put(want, E.q, E.f) /\ UNCHANGED win
+TRecvBegin == IsEv("RecvBegin") /\ E.q \in DOMAIN pkt /\ pkt[E.q].id = E.id /\ E.id # GARB /\ RecvStart(E.q) /\ want' = Put(want, E.q, E.f) /\ UNCHANGED <<win, obs>>
 TRecvLookup == IsEv("RecvLookup") /\ E.q \in DOMAIN rst /\ rst[E.q] = (IF E.found THEN "found" ELSE "dropped") /\ Same
 TRecvDelivered == IsEv("RecvDelivered") /\ E.q \in DOMAIN rst /\ rst[E.q] = "delivered" /\ Same
 TRecvGaveUp == IsEv("RecvGaveUp") /\ GiveUp(E.q)
@@ -83,11 +105,19 @@ TUnregBegin == /\ IsEv("UnregBegin") /\ cid[E.c] = E.id
                   \/ E.k = "senderr" /\ TSendFail(E.c)
                   \/ E.k = "reply" /\ TTake(E.c, E.p)
                /\ Open(E.c)
+               /\ obs' = IF E.k = "timeout" /\ pc[E.c] = "wait" /\ Early(E.c) # {}
+                         THEN [obs EXCEPT !.early = @ \cup {E.c}, !.held = IF Held(E.c) THEN @ \cup {E.c} ELSE @] ELSE obs
 TUnregistered == IsEv("Unregistered") /\ pc[E.c] = "post" /\ cid[E.c] = E.id /\ Same /\ Shut(E.c)
 \* what the caller was handed is what the peer put into that packet
 TCallEnd == /\ IsEv("CallEnd") /\ pc[E.c] = "done" /\ out[E.c].k = E.k /\ out[E.c].p = E.p
             /\ (E.k = "reply" => (E.p \in DOMAIN pkt /\ pkt[E.p].id = E.rid /\ pkt[E.p].tag = E.tag))
             /\ Same
+\* the caller of TarsInvoke reports success although doInvoke ended otherwise (or holds another packet than the one doInvoke took):
+\* what the caller holds is what counts; accepted as observed and judged by ReplyMatches
+TCallEndClaim == /\ IsEv("CallEnd") /\ pc[E.c] = "done" /\ E.k = "reply" /\ (out[E.c].k # "reply" \/ out[E.c].p # E.p)
+                 /\ (E.p \in DOMAIN pkt => (pkt[E.p].id = E.rid /\ pkt[E.p].tag = E.tag))
+                 /\ Finish(E.c, "reply", E.p)
+                 /\ UNCHANGED <<msgID, pc, cid, st, eff, resp, queueLen, mgrInvoke, tInvoke, conn, dialer, dmode, dialT, sendQ, wire, seen, pkt, rst, rch, lookT, now>>
 \* the call returned although its cleanup was never reported: accepted as observed (nothing is released), judged by the
 \* accounting invariants and NoResidue
 TCallEndNoCleanup == /\ IsEv("CallEnd") /\ pc[E.c] \in {"send", "wait"} /\ E.k # "reply"
@@ -95,15 +125,18 @@ TCallEndNoCleanup == /\ IsEv("CallEnd") /\ pc[E.c] \in {"send", "wait"} /\ E.k #
                      /\ UNCHANGED <<msgID, cid, st, eff, resp, queueLen, tInvoke, conn, dialer, dmode, dialT, sendQ, wire, seen, pkt, rst, rch, lookT, now>>
 \* the harness gave up waiting for this call long after every bound (the run ends here)
 THung == IsEv("Hung") /\ InFlight(E.c) /\ Same
-TNoop == (IsEv("Dialed") \/ IsEv("ConnClosed") \/ IsEv("WriteErr") \/ IsEv("PeerClose")) /\ Same
+TNoop == /\ (IsEv("Dialed") \/ IsEv("ConnClosed") \/ IsEv("WriteErr") \/ IsEv("PeerClose")) /\ Same
+         /\ obs' = (IF E.e = "Dialed" THEN obs ELSE [obs EXCEPT !.shut = TRUE])
+         /\ UNCHANGED <<want, win>>
 \* the counters read through the test-only exports after quiescence are accepted as they are; NoResidue judges them.
 \* connection.invokeNum is compared with the model's prediction and with 0, and any deviation is printed for the check.
 TQuiesce == /\ IsEv("Quiesce") /\ Quiet
             /\ queueLen' = E.ql /\ mgrInvoke' = E.mgr /\ tInvoke' = E.tinv
             /\ resp' = IF E.pend = Cardinality(DOMAIN resp) THEN resp ELSE [i \in 45000..(44999 + E.pend) |-> 1]
             /\ (IF E.tinv = 0 /\ tInvoke = 0 THEN TRUE ELSE PrintT(<<"TINV", scn.sc, E.tinv, tInvoke>>))
+            /\ (IF obs.early = {} THEN TRUE ELSE PrintT(<<"EARLY", scn.sc, Cardinality(obs.early), Cardinality(obs.held)>>))
             /\ UNCHANGED <<msgID, pc, cid, out, st, eff, conn, dialer, dmode, dialT, sendQ, wire, seen, pkt, rst, rch, lookT, now>>
-TEnd == Here /\ E.e = "End" /\ l' = l + 1 /\ UNCHANGED <<vars, scn, want, win>>
+TEnd == Here /\ E.e = "End" /\ l' = l + 1 /\ UNCHANGED <<vars, scn, want, win, obs>>
 
 \* ---- silent steps, enabled only when the next event needs them ...
 CallerNeed ==
@@ -121,7 +154,7 @@ CallerNeed ==
 RecvNeed ==
   /\ E.e = "RecvDelivered" /\ E.q \in DOMAIN rst
   /\ LET q == E.q IN rst[q] = "found" /\ (Deliver(q) \/ (pc[rch[q]] = "send" /\ SendOpen(rch[q])))
-TSilent == Synced /\ UNCHANGED <<l, scn, want, win>> /\ (CallerNeed \/ RecvNeed)
+TSilent == Synced /\ UNCHANGED <<l, scn, want, win, obs>> /\ (CallerNeed \/ RecvNeed)
 \* ---- the table lookup of receiver q happens somewhere between RecvBegin{q} and RecvLookup{q}, unordered against the
 \* Store / Delete of a call that is between RegBegin and Registered / UnregBegin and Unregistered.  RecvBegin carries the
 \* result reported later (want[q]: 1 found, 0 not found, 2 none reported), so the placement needs no search: the lookup is
@@ -145,18 +178,20 @@ Win == IF scn'.qmax >= 100000 THEN UNCHANGED <<qlo, qhi>>      \* the queue can 
        ELSE /\ qlo' = [c \in Callers |-> IF pc'[c] \in PreReg THEN (IF pc[c] = "idle" \/ Lo < qlo[c] THEN Lo ELSE qlo[c]) ELSE qlo[c]]
             /\ qhi' = [c \in Callers |-> IF pc'[c] \in PreReg THEN (IF pc[c] = "idle" \/ Hi > qhi[c] THEN Hi ELSE qhi[c]) ELSE qhi[c]]
 
-Events == \/ TCallStart \/ TDequeued \/ TPeerRecv \/ TPeerSend \/ TNetRecv
+Events == \/ TCallStart \/ TDequeued \/ TPeerRecv \/ TNetRecv
           \/ TRecvBad \/ TRecvLookup \/ TRecvDelivered \/ TRecvGaveUp
-          \/ TCallEnd \/ TCallEndNoCleanup \/ THung \/ TNoop \/ TQuiesce
-TraceNext == /\ IF Ready # {} THEN Forced /\ UNCHANGED <<l, scn, want, win>>
+          \/ TCallEnd \/ TCallEndClaim \/ TCallEndNoCleanup \/ THung \/ TQuiesce
+TraceNext == /\ IF Ready # {} THEN Forced /\ UNCHANGED <<l, scn, want, win, obs>>
                 ELSE \/ Events /\ Keep
-                     \/ TAdvance \/ TConfig \/ TRecvBegin \/ TEnd \/ TSilent
+                     \/ TAdvance \/ TConfig \/ TRecvBegin \/ TEnd \/ TSilent \/ TNoop \/ TPeerSend
                      \/ TRegBegin \/ TRegistered \/ TUnregBegin \/ TUnregistered
              /\ Win
 TraceSpec == TraceInit /\ [][TraceNext]_tvars
 
 \* every call is over by its effective deadline + the dial timeout + the scheduling slack (+5 % timer accuracy)
 TDeadline == \A c \in Callers : InFlight(c) => now <= st[c] + eff[c] + scn.dial + Slack + (eff[c] \div 20)
+\* no call timed out behind a stray packet although its reply had been written Margin before its deadline (see Held)
+TimelyReply == obs.held = {}
 
 ASSUME TLCSet(1, 0)
 HighWater == (IF l > TLCGet(1) THEN TLCSet(1, l) ELSE TRUE)
